@@ -152,3 +152,43 @@ let run (id : string) (ops : string list) (out : out_channel) =
   | v -> failwith ("c12 pkg: " ^ v)
 
 let registered = Registry.register "C12" run
+
+(* ---- extraction cross-check: the case as a Gallina Example.  The thread programs, the schedule
+   and a total digest (C12Digest) of the final state and log computed by the extracted runner are
+   printed as a term; coqc re-evaluates the same expression with vm_compute. *)
+let coq_z (z : BinNums.coq_Z) = let n = int_of_z z in if n < 0 then Printf.sprintf "(%d)" n else string_of_int n
+let coq_zl l = "[" ^ String.concat "; " (Stdlib.List.map coq_z l) ^ "]"
+let coq_b b = if b then "true" else "false"
+let coq_pkt (p : packet) =
+  Printf.sprintf "(mkPkt (mkKey %d%%nat %s) %s %s %s %s %s)" (int_of_nat p.p_key.k_flow) (coq_b p.p_key.k_dir)
+    (coq_b p.p_syn) (coq_b p.p_fin) (coq_z p.p_seq) (coq_zl p.p_bytes) (coq_z p.p_ts)
+let coq_op = function
+  | OPkt p -> "OPkt " ^ coq_pkt p
+  | OFlush None -> "OFlush None"
+  | OFlush (Some t) -> Printf.sprintf "OFlush (Some %s)" (coq_z t)
+
+let to_coq (idx : int) (ops : string list) (out : out_channel) =
+  if Stdlib.List.exists (fun s -> (String.length s > 5 && String.sub s 0 5 = "race:") ||
+                                  (String.length s > 8 && String.sub s 0 8 = "explore:")) ops then () else begin
+    let pkg = ref "t" and progs = ref [] and sched = ref [] in
+    Stdlib.List.iter (fun s ->
+        match split_on ':' s with
+        | ["pkg"; v] -> pkg := v
+        | ["th"; _; body] -> progs := (if body = "" then [] else Stdlib.List.map parse_op (split_on ',' body)) :: !progs
+        | ["sched"; ""] -> ()
+        | ["sched"; v] -> sched := Stdlib.List.map int_of_string (split_on ',' v)
+        | _ -> ()) ops;
+    let progs = Stdlib.List.rev !progs in
+    let fuel = 3000 in
+    let nsched = Stdlib.List.map nat_of_int !sched in
+    let (fn, cfg, d) =
+      if !pkg = "t" then ("c12_digest_tcp", "cfg_tcp", C12Digest.c12_digest_tcp cfg_tcp (nat_of_int fuel) progs nsched)
+      else ("c12_digest_rsm", "cfg_rsm", C12Digest.c12_digest_rsm cfg_rsm (nat_of_int fuel) progs nsched) in
+    let progs_s = "[" ^ String.concat ";\n   " (Stdlib.List.map (fun pr -> "[" ^ String.concat "; " (Stdlib.List.map coq_op pr) ^ "]") progs) ^ "]" in
+    let sched_s = "[" ^ String.concat "; " (Stdlib.List.map (fun t -> Printf.sprintf "%d%%nat" t) !sched) ^ "]" in
+    Printf.fprintf out "Example sample_%d : %s %s %d%%nat\n  %s\n  %s =\n  %s.\nProof. vm_compute. reflexivity. Qed.\n"
+      idx fn cfg fuel progs_s sched_s (coq_zl d)
+  end
+
+let registered_coq = Registry.register_coq "C12" ("From GP Require Import Base C12Model C12Digest.\nOpen Scope Z_scope.\n", to_coq)
+
